@@ -234,7 +234,23 @@ def gen_case(rng, tier, exact=None, restricted=None):
 
 
 def build(payload):
-    return canon.build_circuit({"nq": payload["nq"], "instrs": payload["instrs"]})
+    """optional payload keys (absent in all older payloads): "qregs": [sizes] — the qubits live in several quantum registers (instruction qubits
+    stay positions in the circuit); instructions {"name": "delay", "qubits": [q], "params": [duration]} — idle time, legal circuit content that
+    is an ordinary one-qubit instruction for the cut finder"""
+    desc = {"nq": payload["nq"], "instrs": payload["instrs"]}
+    if payload.get("qregs"):
+        desc["qregs"] = list(payload["qregs"])
+    delays = [k for k, i in enumerate(payload["instrs"]) if i["name"] == "delay"]
+    if not delays:
+        return canon.build_circuit(desc)
+    from qiskit.circuit import CircuitInstruction, Delay
+    # canon.mk_op has no delay: build with a one-qubit placeholder at those positions and replace it afterwards
+    desc["instrs"] = [{"name": "id", "qubits": i["qubits"]} if k in delays else i for k, i in enumerate(payload["instrs"])]
+    qc = canon.build_circuit(desc)
+    for k in delays:
+        ps = payload["instrs"][k].get("params") or [100]
+        qc.data[k] = CircuitInstruction(Delay(int(ps[0])), list(qc.data[k].qubits), [])
+    return qc
 
 
 def _params(payload):
@@ -522,3 +538,87 @@ def describe(payload):
     g = two_qubit_gates(payload)
     return {"nq": payload["nq"], "gates2q": len(g), "width": payload["width"], "gate_lo": payload["gate_lo"], "wire_lo": payload["wire_lo"],
             "max_backjumps": str(payload["max_backjumps"]), "max_gamma": payload["max_gamma"], "exact": payload["exact"]}
+
+
+# ---------------------------------------------------------------- deterministic families (independent of the run's seed)
+
+def _fam(nq, instrs, width, glo=True, wlo=True, seed=0, mg=1e6, mb=None, exact=True, **extra):
+    p = {"nq": nq, "instrs": [dict(i) for i in instrs], "seed": seed, "max_gamma": mg, "max_backjumps": mb, "gate_lo": glo, "wire_lo": wlo,
+         "width": width, "exact": exact, "always_oracle": True}
+    p.update(extra)
+    return p
+
+
+def _g(name, *qs, params=None):
+    d = {"name": name, "qubits": list(qs)}
+    if params is not None:
+        d["params"] = list(params)
+    return d
+
+
+def family_delays():
+    """Circuits that contain Delay instructions (idle time: an ordinary one-qubit instruction for the finder) before, directly in front of,
+    between and after the gates that have to be cut, on busy and on otherwise idle qubits; gate cuts, wire cuts, both; unrestricted search
+    and the greedy answer (max_backjumps=0).  Positions reported by the finder are positions in the *input* circuit, delays included."""
+    d = lambda q, t=100: _g("delay", q, params=[t])
+    chain4 = [_g("cx", 0, 1), _g("cx", 1, 2), _g("cx", 2, 3)]
+    out = []
+    # a delay before everything (the instruction one position before the gate to be cut is another two-qubit gate)
+    lead = [d(0, 50)] + chain4
+    out += [_fam(4, lead, 2), _fam(4, lead, 2, wlo=False, seed=5, mb=0), _fam(4, lead, 2, glo=False, seed=1)]
+    # a delay directly in front of the gate that has to be cut (the instruction one position earlier is the delay / a one-qubit gate)
+    between = [_g("h", 0), _g("cx", 0, 1), d(1), _g("cx", 1, 2), _g("cx", 2, 3)]
+    out += [_fam(4, between, 2), _fam(4, between, 2, wlo=False, seed=3), _fam(4, between, 2, glo=False, seed=2, mb=0)]
+    # several delays, blocks {0,1,2} and {3,4}, limit 3
+    two = [_g("cx", 0, 1), d(0, 10), _g("cx", 1, 2), d(4, 10), _g("cx", 3, 4), _g("cx", 2, 3), _g("cx", 3, 4)]
+    out += [_fam(5, two, 3, glo=False), _fam(5, two, 3, seed=7)]
+    # delays on an otherwise idle qubit and on a qubit that is first used late; a one-qubit gate before the gate to be cut
+    idle = [d(4, 20), d(3, 20), _g("cx", 1, 0), _g("x", 1), _g("cz", 1, 2), d(2, 5), _g("cx", 3, 2)]
+    out += [_fam(5, idle, 2, seed=11), _fam(5, idle, 2, glo=False, seed=11)]
+    # control: the only delay comes after the last cut position
+    after = [_g("h", 0)] + chain4 + [d(3), _g("rx", 3, params=[0.1])]
+    out += [_fam(4, after, 2, seed=4)]
+    return out
+
+
+def family_registers():
+    """Circuits whose qubits live in several quantum registers (data + ancilla, two named registers, three registers), with gates inside
+    the second register and gates that cross registers; instruction qubits are positions in the circuit (find_bit), whatever the register."""
+    out = []
+    # two registers of three, a pair inside each: nothing needs cutting at width 2
+    out += [_fam(6, [_g("cx", 0, 1), _g("h", 3), _g("cx", 4, 5)], 2, qregs=[3, 3]),
+            _fam(6, [_g("cx", 0, 1), _g("h", 3), _g("cx", 4, 5)], 2, glo=False, seed=1, qregs=[3, 3])]
+    # data register + one ancilla that talks to every data qubit
+    star = [_g("cx", 0, 3), _g("cx", 1, 3), _g("cx", 2, 3)]
+    out += [_fam(4, star, 3, qregs=[3, 1]), _fam(4, star, 2, seed=2, qregs=[3, 1]), _fam(4, star, 2, glo=False, seed=3, qregs=[1, 3])]
+    # a chain that crosses from one register into the next
+    chain = [_g("cx", 0, 1), _g("rzz", 1, 2, params=[0.4]), _g("cx", 2, 3)]
+    out += [_fam(4, chain, 2, exact=False, qregs=[2, 2]), _fam(4, chain, 2, exact=False, seed=9, qregs=[1, 2, 1])]
+    # gates only in the later registers, repeated pairs, wire cuts only
+    rep = [_g("cx", 3, 4), _g("cx", 3, 4), _g("cz", 4, 2), _g("cx", 3, 4), _g("cx", 2, 1)]
+    out += [_fam(5, rep, 2, glo=False, seed=6, qregs=[2, 3]), _fam(5, rep, 3, seed=6, qregs=[1, 1, 3])]
+    return out
+
+
+def family_bound_gap():
+    """Unrestricted searches in which the greedy warm start contains wire cuts (an expensive gate — swap, iswap, dcx — sits where the width
+    limit forces a cut) while the optimum cuts cheaper gates instead and costs less than the greedy answer but more than what the greedy
+    answer would cost with entangled-pair (LOCC) wire cuts (3 instead of 4 per wire; 7 instead of 16 for two between the same parts)."""
+    import math
+    a45, a25, a40 = math.asin(0.45), math.asin(0.25), math.asin(0.40)
+    out = []
+    # two cheap rotations (kappa 1.9 each, product 3.61) vs one wire cut (4) in front of the expensive gate
+    for big, fam, seed in (("swap", "rzz", 0), ("iswap", "rxx", 1), ("dcx", "ryy", 2)):
+        out.append(_fam(3, [_g(fam, 1, 2, params=[a45]), _g(fam, 1, 2, params=[a45]), _g(big, 0, 1)], 2, exact=False, seed=seed))
+    # three rotations of kappa 1.5 (3.375), kappas 1.8 * 2.0 = 3.6 from controlled rotations (kappa = 1 + 2 sin(theta/2))
+    out.append(_fam(3, [_g("rzz", 2, 1, params=[a25])] * 3 + [_g("swap", 1, 0)], 2, exact=False, seed=3))
+    out.append(_fam(4, [_g("h", 0), _g("crz", 2, 3, params=[2 * a40]), _g("cp", 2, 3, params=[math.pi / 3]), _g("iswap", 1, 2), _g("x", 0)], 2,
+                    exact=False, seed=4))
+    # the expensive gate first: the greedy pass wire-cuts in front of the later gates
+    out.append(_fam(3, [_g("swap", 0, 1), _g("rzz", 1, 2, params=[a45]), _g("rzz", 2, 1, params=[a45])], 2, exact=False, seed=5))
+    # two wire cuts between the same two parts in the greedy answer (16; 7 with entangled pairs) vs two cx gate cuts (9)
+    out.append(_fam(3, [_g("cx", 1, 2), _g("swap", 0, 1), _g("cx", 1, 2), _g("swap", 0, 1)], 2, exact=False, seed=6))
+    out.append(_fam(4, [_g("swap", 0, 1), _g("cx", 1, 2), _g("swap", 2, 3), _g("cx", 1, 2), _g("iswap", 0, 1)], 2, exact=False, seed=7))
+    # controls: same shapes, optimum equal to the greedy answer
+    out.append(_fam(3, [_g("rzz", 1, 2, params=[1.2]), _g("rzz", 1, 2, params=[1.2]), _g("swap", 0, 1)], 2, exact=False, seed=8))
+    return out
